@@ -92,6 +92,7 @@ struct Runner {
     QStringList secrets;
     bool hang = false;
     int hangs = 0;   // executions ended by the hang detector (0 on a conforming implementation)
+    int reads = 0;   // readyRead notifications of the client socket (counted after XmppSocket handled them)
     bool lastHang = false;
     QMap<QString, qint64> usPerKind;
     QElapsedTimer stepClock;
@@ -137,6 +138,7 @@ struct Runner {
                 rm->setRegistrationFormToSend(form);
             }
         }
+        QObject::connect(c->stream()->socket(), &QIODevice::readyRead, c.get(), [this] { ++reads; });
         QObject::connect(c.get(), &QXmppClient::connected, c.get(), [this] { sig << "connected"; });
         QObject::connect(c.get(), &QXmppClient::disconnected, c.get(), [this] { sig << "disconnected"; });
         QObject::connect(c.get(), &QXmppClient::error, c.get(), [this](QXmppClient::Error) { sig << "error"; });
@@ -482,8 +484,15 @@ struct Runner {
         }
         int n0 = peer.connections;
         peer.takeReceived();
+        const int reads0 = reads;
         peer.write(x);
-        if (tlsAfter) {
+        if (k == "Partial") {
+            // nothing is delivered or logged for a fragment: the step is over when the client's socket
+            // has handed the bytes to XmppSocket
+            bool ok = qxvSpin([&] { return reads > reads0 || !clientSocketUp(); });
+            qxvDrain();
+            hang = !ok;
+        } else if (tlsAfter) {
             // The server side must switch to TLS right after <proceed/>, before the event loop
             // runs: the client's ClientHello would otherwise be read as stream data. A client that
             // rejects <proceed/> closes the connection, which ends the handshake attempt.
